@@ -640,3 +640,272 @@ Theorem C08_histc_slot_stable :
   forall a, cbfun_of (hc_s C st') e a = cbfun_of (hc_s C st) e a.
 Proof. exact histc_slot_stable. Qed.
 Print Assumptions C08_histc_slot_stable.
+
+(** ** ZBDD level swaps and reorderings (package C08z: Mgr/LevelSwapZ*.v)
+
+    [level_swap_zc s i] = [level_down(m, i)] with the ZBDD rules ([cofactor_skipped]: hi = Empty;
+    [reduce]: hi = Empty -> lo) inside a [reorder] bracket; [level_swap_z s i] =
+    [m.reorder(|m| level_down(m, i))] = tautology chain dropped ([zchain_drop] = [pre_reorder_mut]),
+    swap, chain rebuilt ([zchain_rebuild] = [post_reorder_mut]); [set_var_order_model_z] = [set_var_order].
+    [ZbddOK] = well-formed ZBDD table with the terminals Empty and Base. *)
+From OxiVerif Require Import DD.Build DD.BuildProofs DD.FamSpec DD.FamSpecProofs DD.ZbddOps DD.ZbddOpsProofs DD.ZbddVars DD.ZbddVarsProofs.
+From OxiVerif Require Import Mgr.LevelSwapZ Mgr.LevelSwapZSem Mgr.LevelSwapZSub Mgr.LevelSwapZProofs Mgr.LevelSwapZChain
+  Mgr.LevelSwapZOrder Mgr.LevelSwapZFam.
+
+(* (a) one swap inside the bracket keeps the ZBDD invariant (ordered, zero-suppressed, unique, maps inverse) *)
+Theorem C08_zbdd_swap_core_ok : forall s i,
+  ZbddOpsProofs.ZbddOK s -> S i < nlevels s -> ZbddOpsProofs.ZbddOK (level_swap_zc s i).
+Proof. exact zc_ok. Qed.
+Print Assumptions C08_zbdd_swap_core_ok.
+
+Theorem C08_zbdd_swap_core_maps : forall s i,
+  ZbddOpsProofs.ZbddOK s -> S i < nlevels s ->
+  s_l2v (level_swap_zc s i) = swap_adj i (s_l2v s)
+  /\ s_v2l (level_swap_zc s i) = map (swap_idx i) (s_v2l s)
+  /\ (forall l, nth_error (s_l2v (level_swap_zc s i)) l = nth_error (s_l2v s) (swap_idx i l))
+  /\ (forall v, nth_error (s_v2l (level_swap_zc s i)) v = option_map (swap_idx i) (nth_error (s_v2l s) v)).
+Proof. exact zc_maps. Qed.
+Print Assumptions C08_zbdd_swap_core_maps.
+
+(* (c) handle list unchanged, every handle's node keeps its id *)
+Theorem C08_zbdd_swap_core_handles : forall s i,
+  ZbddOpsProofs.ZbddOK s -> S i < nlevels s ->
+  s_handles (level_swap_zc s i) = s_handles s
+  /\ forall h, In h (s_handles s) -> ref_ok (level_swap_zc s i) (eref (snd h)).
+Proof. exact zc_handles_both. Qed.
+Print Assumptions C08_zbdd_swap_core_handles.
+
+(* (d) the other levels are not touched, in both directions *)
+Theorem C08_zbdd_swap_core_untouched : forall s i,
+  ZbddOpsProofs.ZbddOK s -> S i < nlevels s ->
+  forall id nd, nlevel nd <> i -> nlevel nd <> S i ->
+    (find_node s id = Some nd <-> find_node (level_swap_zc s i) id = Some nd).
+Proof. exact zc_untouched_iff. Qed.
+Print Assumptions C08_zbdd_swap_core_untouched.
+
+Theorem C08_zbdd_swap_core_removed_only : forall s i,
+  ZbddOpsProofs.ZbddOK s -> S i < nlevels s ->
+  forall id nd, find_node s id = Some nd -> find_node (level_swap_zc s i) id = None ->
+  nlevel nd = S i /\ In id (dropped_children s i)
+  /\ forall k kd e, find_node (level_swap_zc s i) k = Some kd -> In e (nchildren kd) -> eref e <> RN id.
+Proof. exact zc_removed_only. Qed.
+Print Assumptions C08_zbdd_swap_core_removed_only.
+
+(* (b) the Boolean view of every reference stored before and after, also of the edges inside nodes
+   (seen from any level that is not between the swapped ones), over LEVELS with the two entries exchanged *)
+Theorem C08_zbdd_swap_core_view : forall s i,
+  ZbddOpsProofs.ZbddOK s -> S i < nlevels s ->
+  forall r lvl c, ref_ok s r -> ref_ok (level_swap_zc s i) r -> choice_ok s c ->
+  lvl <= rlevel s r -> (lvl <= i \/ S (S i) <= lvl) ->
+  semz (level_swap_zc s i) (S (nlevels (level_swap_zc s i))) lvl r (swap_choice i c)
+  = semz s (S (nlevels s)) lvl r c.
+Proof. exact zc_view. Qed.
+Print Assumptions C08_zbdd_swap_core_view.
+
+Theorem C08_zbdd_swap_core_sem_levels : forall s i,
+  ZbddOpsProofs.ZbddOK s -> S i < nlevels s ->
+  forall e c, ref_ok s (eref e) -> ref_ok (level_swap_zc s i) (eref e) -> choice_ok s c ->
+  sem_edge (level_swap_zc s i) e (swap_choice i c) = sem_edge s e c.
+Proof. exact zc_sem_levels. Qed.
+Print Assumptions C08_zbdd_swap_core_sem_levels.
+
+(* (b) over the VARIABLES: unchanged *)
+Theorem C08_zbdd_swap_core_sem_vars : forall s i,
+  ZbddOpsProofs.ZbddOK s -> S i < nlevels s ->
+  forall e a, ref_ok s (eref e) -> ref_ok (level_swap_zc s i) (eref e) ->
+  eval_vars (level_swap_zc s i) e a = eval_vars s e a.
+Proof. exact zc_sem_vars. Qed.
+Print Assumptions C08_zbdd_swap_core_sem_vars.
+
+(* (b) the same family over the variables: a set [a] of variables is a member before iff afterwards *)
+Theorem C08_zbdd_swap_core_fam_vars : forall s i,
+  ZbddOpsProofs.ZbddOK s -> S i < nlevels s ->
+  forall e, ref_ok s (eref e) -> ref_ok (level_swap_zc s i) (eref e) ->
+  exists F F', fam_of s (eref e) = Some F /\ fam_of (level_swap_zc s i) (eref e) = Some F'
+    /\ forall a, fmem (set_levels (level_swap_zc s i) a) F' = fmem (set_levels s a) F.
+Proof. exact zc_fam_vars. Qed.
+Print Assumptions C08_zbdd_swap_core_fam_vars.
+
+(* how a set of variables is written as a member list, and that every member is such a list *)
+Theorem C08_zbdd_set_levels_spec : forall s a l,
+  In l (set_levels s a) <-> l < nlevels s /\ a (nth l (s_l2v s) 0) = true.
+Proof. exact set_levels_spec. Qed.
+Print Assumptions C08_zbdd_set_levels_spec.
+
+Theorem C08_zbdd_fam_member_is_set : forall s r F S, WF s -> s_kind s = KZbdd ->
+  fam_of s r = Some F -> In S F -> set_levels s (vset s S) = S.
+Proof. exact fam_member_is_set. Qed.
+Print Assumptions C08_zbdd_fam_member_is_set.
+
+(* the tautology chain: [pre_reorder_mut] removes only nodes nothing else refers to ... *)
+Theorem C08_zbdd_chain_drop : forall s, ZbddOpsProofs.ZbddOK s ->
+  ZbddOpsProofs.ZbddOK (zchain_drop s)
+  /\ s_l2v (zchain_drop s) = s_l2v s /\ s_v2l (zchain_drop s) = s_v2l s /\ s_handles (zchain_drop s) = s_handles s
+  /\ (forall id nd, find_node (zchain_drop s) id = Some nd -> find_node s id = Some nd)
+  /\ (forall h, In h (s_handles s) -> ref_ok (zchain_drop s) (eref (snd h)))
+  /\ (forall e a, ref_ok (zchain_drop s) (eref e) -> eval_vars (zchain_drop s) e a = eval_vars s e a)
+  /\ (forall id nd, find_node s id = Some nd -> find_node (zchain_drop s) id = None ->
+        (exists x, nchildren nd = [x; x])
+        /\ (forall k kd e, find_node (zchain_drop s) k = Some kd -> In e (nchildren kd) -> eref e <> RN id)
+        /\ (forall h, In h (s_handles s) -> eref (snd h) <> RN id)).
+Proof. exact zchain_drop_all. Qed.
+Print Assumptions C08_zbdd_chain_drop.
+
+(* ... and [post_reorder_mut] only adds nodes and completes the chain: taut(l) = all subsets of the levels l.. *)
+Theorem C08_zbdd_chain_rebuild : forall s, ZbddOpsProofs.ZbddOK s ->
+  ZbddOpsProofs.ZbddOK (zchain_rebuild s) /\ extends s (zchain_rebuild s)
+  /\ exists ch, ztaut_chain s = Some (zchain_rebuild s, ch) /\ length ch = nlevels s + 1
+     /\ forall l t, nth_error ch l = Some t ->
+          ref_ok (zchain_rebuild s) t
+          /\ exists F, fam_of (zchain_rebuild s) t = Some F /\ feq F (f_powerset l (nlevels s - l)).
+Proof. exact zchain_rebuild_ok. Qed.
+Print Assumptions C08_zbdd_chain_rebuild.
+
+(* the whole [reorder(level_down(i))] *)
+Theorem C08_zbdd_level_swap_ok : forall s i,
+  ZbddOpsProofs.ZbddOK s -> S i < nlevels s -> ZbddOpsProofs.ZbddOK (level_swap_z s i).
+Proof. exact level_swap_z_ok. Qed.
+Print Assumptions C08_zbdd_level_swap_ok.
+
+Theorem C08_zbdd_level_swap_maps : forall s i,
+  ZbddOpsProofs.ZbddOK s -> S i < nlevels s ->
+  s_l2v (level_swap_z s i) = swap_adj i (s_l2v s)
+  /\ s_v2l (level_swap_z s i) = map (swap_idx i) (s_v2l s)
+  /\ (forall l, nth_error (s_l2v (level_swap_z s i)) l = nth_error (s_l2v s) (swap_idx i l))
+  /\ (forall v, nth_error (s_v2l (level_swap_z s i)) v = option_map (swap_idx i) (nth_error (s_v2l s) v)).
+Proof. exact level_swap_z_maps. Qed.
+Print Assumptions C08_zbdd_level_swap_maps.
+
+Theorem C08_zbdd_level_swap_handles : forall s i,
+  ZbddOpsProofs.ZbddOK s -> S i < nlevels s ->
+  s_handles (level_swap_z s i) = s_handles s
+  /\ forall h, In h (s_handles s) -> survives s i (snd h) /\ ref_ok (level_swap_z s i) (eref (snd h)).
+Proof. exact level_swap_z_handles_both. Qed.
+Print Assumptions C08_zbdd_level_swap_handles.
+
+(* (b) headline: every edge that is stored throughout denotes the same Boolean function of the variables *)
+Theorem C08_zbdd_level_swap_sem_vars : forall s i,
+  ZbddOpsProofs.ZbddOK s -> S i < nlevels s ->
+  forall e a, survives s i e -> eval_vars (level_swap_z s i) e a = eval_vars s e a.
+Proof. exact level_swap_z_sem_vars. Qed.
+Print Assumptions C08_zbdd_level_swap_sem_vars.
+
+Theorem C08_zbdd_level_swap_handles_vars : forall s i,
+  ZbddOpsProofs.ZbddOK s -> S i < nlevels s ->
+  forall h a, In h (s_handles s) ->
+  eval_vars (level_swap_z s i) (snd h) a = eval_vars s (snd h) a
+  /\ exists v, eval_vars s (snd h) a = Some v.
+Proof. exact level_swap_z_handles_vars. Qed.
+Print Assumptions C08_zbdd_level_swap_handles_vars.
+
+(* (b) headline: ... and the same family of sets of variables: membership of every variable set, and the
+   members of either family, read as sets of variables, are the members of the other *)
+Theorem C08_zbdd_level_swap_fam_vars : forall s i,
+  ZbddOpsProofs.ZbddOK s -> S i < nlevels s ->
+  forall e, survives s i e ->
+  exists F F', fam_of s (eref e) = Some F /\ fam_of (level_swap_z s i) (eref e) = Some F'
+    /\ forall a, fmem (set_levels (level_swap_z s i) a) F' = fmem (set_levels s a) F.
+Proof. exact level_swap_z_fam_vars. Qed.
+Print Assumptions C08_zbdd_level_swap_fam_vars.
+
+Theorem C08_zbdd_level_swap_fam_image : forall s i e,
+  ZbddOpsProofs.ZbddOK s -> S i < nlevels s -> survives s i e ->
+  exists F F', fam_of s (eref e) = Some F /\ fam_of (level_swap_z s i) (eref e) = Some F'
+    /\ (forall S, In S F -> In (set_levels (level_swap_z s i) (vset s S)) F')
+    /\ (forall S', In S' F' -> In (set_levels s (vset (level_swap_z s i) S')) F).
+Proof. exact level_swap_z_fam_image. Qed.
+Print Assumptions C08_zbdd_level_swap_fam_image.
+
+(* the chain is complete again after the bracket *)
+Theorem C08_zbdd_level_swap_chain : forall s i,
+  ZbddOpsProofs.ZbddOK s -> S i < nlevels s ->
+  exists ch, ztaut_chain (level_swap_zc (zchain_drop s) i) = Some (level_swap_z s i, ch)
+    /\ length ch = nlevels s + 1
+    /\ forall l t, nth_error ch l = Some t ->
+         ref_ok (level_swap_z s i) t
+         /\ exists F, fam_of (level_swap_z s i) t = Some F /\ feq F (f_powerset l (nlevels s - l)).
+Proof. exact level_swap_z_chain. Qed.
+Print Assumptions C08_zbdd_level_swap_chain.
+
+(* any sequence of in-range swaps inside one bracket *)
+Theorem C08_zbdd_swaps_fold : forall sw s,
+  ZbddOpsProofs.ZbddOK s -> Forall (fun k => S k < nlevels s) sw ->
+  let s' := fold_left level_swap_zc sw s in
+  ZbddOpsProofs.ZbddOK s' /\ nlevels s' = nlevels s /\ s_handles s' = s_handles s
+  /\ s_l2v s' = replay sw (s_l2v s) /\ s_v2l s' = fold_left (fun v k => map (swap_idx k) v) sw (s_v2l s)
+  /\ (forall h a, In h (s_handles s) ->
+        eval_vars s' (snd h) a = eval_vars s (snd h) a /\ exists v, eval_vars s (snd h) a = Some v).
+Proof. exact zswaps_fold. Qed.
+Print Assumptions C08_zbdd_swaps_fold.
+
+(* set_var_order on a ZBDD manager *)
+Theorem C08_zbdd_set_var_order_model_correct : forall s order,
+  ZbddOpsProofs.ZbddOK s -> NoDup order -> Forall (fun v => v < nlevels s) order ->
+  let target := sort_order (nlevels s) (map (fun v => nth v (s_v2l s) 0) order) in
+  let s' := set_var_order_model_z s order in
+  ZbddOpsProofs.ZbddOK s' /\ s_kind s' = s_kind s /\ nlevels s' = nlevels s /\ s_handles s' = s_handles s
+  /\ (forall h a, In h (s_handles s) ->
+        eval_vars s' (snd h) a = eval_vars s (snd h) a /\ exists v, eval_vars s (snd h) a = Some v)
+  /\ (forall v, v < nlevels s -> nth v (s_v2l s') 0 = nth (nth v (s_v2l s) 0) target 0)
+  /\ length (snd (bubble_sort target)) = inv target.
+Proof. exact set_var_order_model_z_correct. Qed.
+Print Assumptions C08_zbdd_set_var_order_model_correct.
+
+Theorem C08_zbdd_set_var_order_model_respects : forall s order,
+  ZbddOpsProofs.ZbddOK s -> NoDup order -> Forall (fun v => v < nlevels s) order ->
+  forall a b, a < b < length order ->
+    nth (nth a order 0) (s_v2l (set_var_order_model_z s order)) 0
+    < nth (nth b order 0) (s_v2l (set_var_order_model_z s order)) 0.
+Proof. exact set_var_order_model_z_respects. Qed.
+Print Assumptions C08_zbdd_set_var_order_model_respects.
+
+Theorem C08_zbdd_set_var_order_model_canonical : forall s order,
+  ZbddOpsProofs.ZbddOK s -> NoDup order -> Forall (fun v => v < nlevels s) order ->
+  forall h1 h2, In h1 (s_handles s) -> In h2 (s_handles s) ->
+  (snd h1 = snd h2 <->
+   forall c, choice_ok (set_var_order_model_z s order) c ->
+     sem_edge (set_var_order_model_z s order) (snd h1) c = sem_edge (set_var_order_model_z s order) (snd h2) c).
+Proof. exact set_var_order_model_z_canonical. Qed.
+Print Assumptions C08_zbdd_set_var_order_model_canonical.
+
+Theorem C08_zbdd_set_var_order_model_fam : forall s order h,
+  ZbddOpsProofs.ZbddOK s -> NoDup order -> Forall (fun v => v < nlevels s) order -> In h (s_handles s) ->
+  exists F F', fam_of s (eref (snd h)) = Some F /\ fam_of (set_var_order_model_z s order) (eref (snd h)) = Some F'
+    /\ (forall a, fmem (set_levels (set_var_order_model_z s order) a) F' = fmem (set_levels s a) F)
+    /\ (forall S, In S F -> In (set_levels (set_var_order_model_z s order) (vset s S)) F')
+    /\ (forall S', In S' F' -> In (set_levels s (vset (set_var_order_model_z s order) S')) F).
+Proof. exact set_var_order_model_z_fam_all. Qed.
+Print Assumptions C08_zbdd_set_var_order_model_fam.
+
+Theorem C08_zbdd_set_var_order_model_chain : forall s order,
+  ZbddOpsProofs.ZbddOK s -> NoDup order -> Forall (fun v => v < nlevels s) order ->
+  snd (bubble_sort (sort_order (nlevels s) (map (fun v => nth v (s_v2l s) 0) order))) <> [] ->
+  exists ch, length ch = nlevels s + 1
+    /\ forall l t, nth_error ch l = Some t ->
+         ref_ok (set_var_order_model_z s order) t
+         /\ exists F, fam_of (set_var_order_model_z s order) t = Some F /\ feq F (f_powerset l (nlevels s - l)).
+Proof. exact set_var_order_model_z_chain. Qed.
+Print Assumptions C08_zbdd_set_var_order_model_chain.
+
+(* the hypotheses are satisfiable; on the example the chain is dropped and rebuilt, the loop takes the
+   cofactor_skipped branch and the zero-suppression branch of reduce, creates a node and removes one *)
+Theorem C08_zbdd_level_swap_example :
+  ZbddOpsProofs.ZbddOK zex_swap /\ 1 < nlevels zex_swap
+  /\ zchain_ids zex_swap = Some [3; 2; 1]%positive
+  /\ PositiveMap.cardinal (s_nodes (zchain_drop zex_swap)) = 4
+  /\ dep_ids (zchain_drop zex_swap) 0 = [5]%positive
+  /\ (let z := level_swap_zc (zchain_drop zex_swap) 0 in
+      find_node z 5 = Some (mkNode 0 [zex_e (RT 1); zex_e (RN 8)] 0 1)
+      /\ find_node z 8 = Some (mkNode 1 [zex_e (RT 1); zex_e (RT 0)] 1 0)
+      /\ find_node z 4 = None
+      /\ find_node z 6 = Some (mkNode 1 [zex_e (RN 7); zex_e (RT 1)] 1 1)
+      /\ PositiveMap.cardinal (s_nodes z) = 4)
+  /\ (let z := level_swap_z zex_swap 0 in
+      s_v2l z = [1; 0; 2] /\ s_l2v z = [1; 0; 2]
+      /\ PositiveMap.cardinal (s_nodes z) = 7
+      /\ option_map (@length positive) (zchain_ids z) = Some 3)
+  /\ s_v2l (set_var_order_model_z zex_swap [2; 1; 0]) = [2; 1; 0]
+  /\ set_var_order_model_z zex_swap [0; 1; 2] = zex_swap
+  /\ NoDup [2; 1; 0] /\ Forall (fun v => v < nlevels zex_swap) [2; 1; 0].
+Proof. exact zex_swap_all. Qed.
+Print Assumptions C08_zbdd_level_swap_example.
